@@ -80,10 +80,7 @@ template <typename A, typename K, typename... S>
 static std::string do_slice(A& a, const std::vector<SliceSpec>& sp, K&& k, S... s) {
     constexpr size_t n = sizeof...(S);
     if (n == sp.size()) {
-        // one slice: mutable_slice(a, s) packs with nmtools_tuple{s}, which CTAD collapses to a copy of s
-        // (does not compile) -> go through apply_mutable_slice with an explicit 1-tuple
-        if constexpr (n == 1) { auto v = view::apply_mutable_slice(a, nmtools_tuple<S...>{s...}); return k(v); }
-        else if constexpr (n >= 2) { auto v = view::mutable_slice(a, s...); return k(v); }
+        if constexpr (n >= 1) { auto v = view::mutable_slice(a, s...); return k(v); }
         else return "unsupported";
     }
     if constexpr (n < 3) {
